@@ -1250,6 +1250,9 @@ where
                     if offset_table.is_none() {
                         offset_table = Some(Vec::new())
                     }
+                    // the first item is the basic offset table even when it is empty
+                    // (an empty item yields no value token)
+                    first = false;
                 }
                 LazyDataToken::ItemStart { len: _ } => { /* no-op */ }
                 LazyDataToken::SequenceEnd => {
